@@ -60,7 +60,7 @@ func (c03) Gen(seed uint64, run int, tier, variant string) interface{} {
 	}
 	p.Set = GenOpeningSet(r, n, 5)
 	p.IPAPoly = PolySpec{Kind: polyKinds[r.Intn(len(polyKinds))], Seed: r.U64()}
-	p.IPAEval = []string{"in", "out", "out", "edge"}[r.Intn(4)]
+	p.IPAEval = []string{"in", "out", "edge", "edge"}[r.Intn(4)]
 	p.IPASeed = r.U64()
 	k := 4
 	if tier == "thorough" {
@@ -100,7 +100,13 @@ func (p *C03Plan) evalPoint() *big.Int {
 	case "in":
 		return big.NewInt(int64(r.Intn(256)))
 	case "edge":
-		return []*big.Int{big.NewInt(0), big.NewInt(254), big.NewInt(255), big.NewInt(256), big.NewInt(257), new(big.Int).Sub(refmodel.R, bigOne)}[r.Intn(6)]
+		two := func(k uint, j int64) *big.Int { return new(big.Int).Add(new(big.Int).Lsh(bigOne, k), big.NewInt(j)) }
+		// the in-domain / out-of-domain decision must look at the whole field element:
+		// points whose low limb (or low bits) look like a domain index are the boundary class
+		c := []*big.Int{big.NewInt(0), big.NewInt(254), big.NewInt(255), big.NewInt(256), big.NewInt(257), new(big.Int).Sub(refmodel.R, bigOne),
+			two(64, 0), two(64, 3), two(64, 255), two(64, 256), two(128, 17), two(200, 254), two(8, 0), two(32, 5), two(192, 1),
+			new(big.Int).Sub(refmodel.R, big.NewInt(256)), new(big.Int).Rsh(refmodel.R, 1)}
+		return c[r.Intn(len(c))]
 	}
 	return r.Scalar()
 }
